@@ -18,7 +18,7 @@ pub fn c15_parts() -> Vec<Part> {
 }
 
 fn run_hostile_solo(case: &Case, _ctx: &Ctx) -> Outcome {
-    let knobs = Knobs { hostile: true, probes: true, max_steps: 14 };
+    let knobs = Knobs { hostile: true, probes: true, max_steps: 14, ..Knobs::default() };
     let run = run_solo(case, Profile::Mixed, &knobs);
     let mut out = Outcome::default();
     let mut sample = sample_of(&run);
